@@ -240,7 +240,7 @@ class Discharger:
         if t["t"] == "call" and re.search(r"Vec::<T(, A)?>::insert$", name) and len(t["args"]) >= 2 and op_const(t["args"][1]) == 0:
             return ("D-INSERT0", "insert at index 0 is always in bounds")
         if kind.startswith("assert:Overflow") or kind == "assert:Overflow":
-            r = self.read_contract_arith(f, bb, t)
+            r = self.read_contract_arith(f, bb, t) or self.digit_arith(f, bb, t)
             if r:
                 return r
         if kind == "arith":
@@ -486,6 +486,21 @@ class Discharger:
                 ok = False
             if ok:
                 return "offset accumulates only counts returned by Read::read into the same buffer"
+        return None
+
+    def digit_arith(self, f, bb, t):
+        """`b - b'0'` under `b.is_ascii_digit()`"""
+        o = f.origin(t["cond"])
+        ops = [x for x in origin_walk(o) if x[0] == "binop" and x[1] == "SubWithOverflow"]
+        if not ops or ops[0][3][0] != "const" or not isinstance(ops[0][3][1], int) or ops[0][3][1] > 48:
+            return None
+        dom = f.dominators(False)
+        for d in dom[bb]:
+            bs = bool_switch(f, d)
+            if bs and bs[1] != bs[2] and f.dominates(bs[1], bb, unwind=False):
+                c = f.origin(bs[0])
+                if c[0] == "call" and re.search(r"is_ascii_digit$", c[1]) and origin_str(c[2][0]).lstrip("&*") == origin_str(ops[0][2]).lstrip("&*"):
+                    return ("D-GUARDED-ARITH", "`b - %d` under `b.is_ascii_digit()`" % ops[0][3][1])
         return None
 
     def read_contract_arith(self, f, bb, t):
